@@ -275,6 +275,8 @@ class Interp:
             env[v] = c if (isinstance(c, np.ndarray) and c.dtype == object) else to_obj(np.asarray(c))
         assert len(jaxpr.invars) == len(args), (len(jaxpr.invars), len(args))
         for v, a in zip(jaxpr.invars, args):
+            if not isinstance(a, np.ndarray):
+                a = scalar(a)
             if tuple(a.shape) != tuple(v.aval.shape):
                 raise EncodingError(f"input shape {a.shape} != aval {v.aval.shape}")
             env[v] = a
@@ -282,6 +284,8 @@ class Interp:
             ins = [read(v) for v in e.invars]
             outs = self._eqn(e, ins)
             for v, o in zip(e.outvars, outs):
+                if not isinstance(o, np.ndarray):
+                    o = scalar(o)
                 if tuple(o.shape) != tuple(v.aval.shape):
                     raise EncodingError(f"{e.primitive.name}: produced shape {o.shape}, aval {v.aval.shape}")
                 env[v] = o
@@ -884,9 +888,19 @@ class Interp:
 
     # ----- control -----
     def p_scan(self, e, ins, prm, odt):
-        nc, ncar = prm["num_consts"], prm["num_carry"]
+        if "num_consts" in prm:
+            nc, ncar = prm["num_consts"], prm["num_carry"]
+        else:  # newer JAX: ft_in = (consts, carry, xs) groups
+            g = prm["ft_in"].unpack()
+            nc, ncar = len(g[0]), len(g[1])
         length = prm["length"]
         cj = prm["jaxpr"]
+        if not hasattr(cj, "jaxpr"):
+            class _C:  # raw Jaxpr
+                pass
+            c_ = _C()
+            c_.jaxpr, c_.consts = cj, ()
+            cj = c_
         consts = ins[:nc]
         carry = list(ins[nc: nc + ncar])
         xs = ins[nc + ncar:]
